@@ -915,7 +915,8 @@ fn scenario(seed: u64, case: u64, which: u64, scratch: &Path) -> ExecResult {
                 let _ = h.join();
             }
             2 => {
-                let h = spawn_parked("merge:unlocked", 803, Box::new(move |s| s.tree.compact(Arc::new(lsm_tree::compaction::Leveled::default().with_table_target_size(64).with_l0_threshold(1)), wm)));
+                // PullDown(0, 6) always merges (L1..L5 are empty here), so the merge sites are reached
+                let h = spawn_parked("merge:unlocked", 803, Box::new(move |s| s.tree.compact(Arc::new(lsm_tree::compaction::PullDown(0, 6)), wm)));
                 let parked = wait_parked(Duration::from_secs(5));
                 bump(&mut counters, if parked { "scenario_parked" } else { "scenario_not_parked" }, 1);
                 write_some(&sh, &mut rng, 8, &mut uid);
@@ -929,7 +930,7 @@ fn scenario(seed: u64, case: u64, which: u64, scratch: &Path) -> ExecResult {
                 let _ = h.join();
             }
             3 => {
-                let h = spawn_parked("merge:before_finish", 804, Box::new(move |s| s.tree.compact(Arc::new(lsm_tree::compaction::Leveled::default().with_table_target_size(64).with_l0_threshold(1)), wm)));
+                let h = spawn_parked("merge:before_finish", 804, Box::new(move |s| s.tree.compact(Arc::new(lsm_tree::compaction::PullDown(0, 6)), wm)));
                 let parked = wait_parked(Duration::from_secs(5));
                 bump(&mut counters, if parked { "scenario_parked" } else { "scenario_not_parked" }, 1);
                 // drop_range needs the major-compaction write lock: it waits for the parked merge
